@@ -69,13 +69,33 @@ def h3_extwire():
     }
 
 
+def h4_surgery():
+    def inst(mode, n, cal):
+        return {"label": "m%d_n%d_cal%d" % (mode, n, cal), "defines": ["MODE=%d" % mode, "NCH=%d" % n, "HAS_CAL=%d" % cal]}
+    q = [inst(0, 3, 1), inst(0, 3, 0), inst(1, 3, 1), inst(2, 3, 1), inst(2, 2, 0), inst(0, 1, 1), inst(0, 0, 0)]
+    t = q + [inst(0, 4, 1), inst(0, 4, 0), inst(1, 4, 1), inst(2, 4, 1), inst(2, 4, 0), inst(0, 5, 1), inst(2, 5, 1)]
+    return {
+        "name": "h4_surgery", "src": "h4_surgery.c",
+        "env": ["ctx", "hash_model", "list_wrap", "fmt_stub"],
+        "tus": ["tlv", "signature", "hashchain", "hash", "verification", "policy", "types_base", "tlv_element", "fast_tlv"],
+        "unwind": 8, "unwindset": ["KSI_TLV_free.0:3", "KSI_List_free.0:8"], "object_bits": 12, "timeout": 300, "mem_gb": 8,
+        "restrict_fp": ["KSI_Signature_replacePublicationRecord.function_pointer_call.1/removeCalAuthAndPublication"],
+        "functions": ["replaceCalendarChain", "removeCalAuthAndPublication", "KSI_SignatureBuilder_applyCalendarHashChain", "KSI_Signature_replacePublicationRecord",
+                      "KSI_TLV_replaceNestedTlv", "KSI_TLV_appendNestedTlv", "KSI_TLV_getNestedList", "KSI_SignatureBuilder_open"],
+        "bound": "signature element with 0..3 children (thorough up to 5) whose 13-bit tags are all symbolic, with / without calendar chain; symbolic presence of an old publication "
+                 "record / calendar authentication record object; KSI_TlvTemplate_construct stubbed with a symbolic status",
+        "instances": q,
+        "thorough": {"instances": t, "timeout": 1500},
+    }
+
+
 def plan():
     return {
         "property": "C08",
         "outside": "TODO",
         "assumptions": [],
         "manifest": {"claimed": True, "level_text": "TODO", "level_note": "TODO"},
-        "harnesses": [h1_extverify(), h2_compat(), h3_extwire()],
+        "harnesses": [h1_extverify(), h2_compat(), h3_extwire(), h4_surgery()],
     }
 
 
